@@ -12,6 +12,7 @@ import (
 	"crypto/rsa"
 	"encoding/json"
 	"fmt"
+	"math/big"
 	"os"
 	"os/exec"
 	"path/filepath"
@@ -48,8 +49,8 @@ type Plan struct {
 }
 
 var kinds = map[string][]string{
-	"type1-issuer":     {"Evaluate", "Verify", "TokenKeyID", "TokenKey"},
-	"type5-issuer":     {"Evaluate", "Verify", "TokenKeyID", "TokenKey"},
+	"type1-issuer":     {"Evaluate", "Evaluate", "EvaluateMalformed", "Verify", "TokenKeyID", "TokenKey"},
+	"type5-issuer":     {"Evaluate", "Evaluate", "EvaluateMalformed", "Verify", "TokenKeyID", "TokenKey"},
 	"type2-issuer":     {"Evaluate", "TokenKeyID", "TokenKey"},
 	"type3-issuer":     {"Evaluate", "EvaluateUnknownOrigin", "TokenKeyID", "NameKey", "OriginIndexKey"},
 	"batch-issuer":     {"EvaluateBatch"},
@@ -163,6 +164,22 @@ func execute(p Plan) error {
 								}
 							})
 						}
+					case "EvaluateMalformed":
+						// a request with an undecodable element: the error path, running next to honest evaluations
+						runs[g] = append(runs[g], func() post {
+							var err error
+							if typ == 1 {
+								_, err = ev1(&type1.BasicPrivateTokenRequest{TokenKeyID: wantID[31], BlindedReq: bytes.Repeat([]byte{0xff}, 49)})
+							} else {
+								_, err = ev5(&type5.BatchedPrivateTokenRequest{TokenKeyID: wantID[31], BlindedReq: [][]byte{bytes.Repeat([]byte{0xff}, 32), bytes.Repeat([]byte{0xff}, 32)}})
+							}
+							return func() error {
+								if err == nil {
+									return fmt.Errorf("concurrent Evaluate accepted an undecodable element")
+								}
+								return nil
+							}
+						})
 					case "Verify":
 						input := gen.AuthInput(typ, nonce, chal, wantID)
 						good := tokens.Token{TokenType: typ, Nonce: nonce, Context: input[34:66], KeyID: wantID, Authenticator: gen.VOPRFOutput(suite, refKey, input)}
@@ -405,16 +422,30 @@ func execute(p Plan) error {
 				}
 			}
 		case "ecdsa-keys", "ecdsa-generate":
-			c := []elliptic.Curve{elliptic.P256(), elliptic.P384(), elliptic.P521(), elliptic.P224()}[int(seed[1])%4]
-			sk, _ := patecdsa.CreateKey(c, append([]byte{1}, seed[:20]...))
-			bk, _ := patecdsa.CreateKey(c, append([]byte{2}, seed[:20]...))
+			// keys on all four curves are in use at the same time (per-curve state inside the package would be shared)
+			type ecSet struct {
+				c      elliptic.Curve
+				sk, bk *patecdsa.PrivateKey
+				wantBP *patecdsa.PublicKey
+				r0, s0 *big.Int
+				der0   []byte
+			}
 			ctx := []byte("ctx")
 			digest := bytes.Repeat([]byte{0x42}, 32)
-			wantBP, _ := patecdsa.BlindPublicKeyWithContext(c, &sk.PublicKey, bk, ctx)
-			r0, s0, _ := patecdsa.Sign(rt.NewDRBG(seed), sk, digest)
-			der0, _ := patecdsa.SignASN1(rt.NewDRBG(seed), sk, digest)
+			var sets []ecSet
+			for j, c := range []elliptic.Curve{elliptic.P256(), elliptic.P384(), elliptic.P521(), elliptic.P224()} {
+				sk, _ := patecdsa.CreateKey(c, append([]byte{1, byte(j)}, seed[:20]...))
+				bk, _ := patecdsa.CreateKey(c, append([]byte{2, byte(j)}, seed[:20]...))
+				bp, _ := patecdsa.BlindPublicKeyWithContext(c, &sk.PublicKey, bk, ctx)
+				r0, s0, _ := patecdsa.Sign(rt.NewDRBG(seed), sk, digest)
+				der0, _ := patecdsa.SignASN1(rt.NewDRBG(seed), sk, digest)
+				sets = append(sets, ecSet{c, sk, bk, bp, r0, s0, der0})
+			}
+			first := int(seed[1]) % 4
 			for g := range p.Ops {
 				for i, opn := range p.Ops[g] {
+					e := sets[(first+g+i)%4]
+					c, sk, bk, wantBP, r0, s0, der0 := e.c, e.sk, e.bk, e.wantBP, e.r0, e.s0, e.der0
 					rnd := rt.NewDRBG(append([]byte{byte(g), byte(i)}, seed...)) // per-call entropy
 					switch opn {
 					case "Sign":
@@ -783,7 +814,7 @@ func TestConcurrentPlans(t *testing.T) {
 		}
 		p := Plan{Kind: kind, Seed: fmt.Sprintf("%x", gen.Seed().Draw(t, "seed")), GoMaxProcs: gen.Pick(t, []int{2, 4, 16}, "gomaxprocs")}
 		for g := 0; g < nG; g++ {
-			n := gen.UniformRange(t, 1, 5, "nops")
+			n := gen.UniformRange(t, 2, 6, "nops")
 			var ops []string
 			for i := 0; i < n; i++ {
 				ops = append(ops, gen.Pick(t, kinds[kind], "op"))
